@@ -56,6 +56,11 @@ const (
 const defaultHitForPassSeconds = 300
 
 type (
+	// waitResult the result handed over to a request waiting for a fetching cache
+	waitResult struct {
+		status   Status
+		response *HTTPResponse
+	}
 	// httpCache http cache (only for same request method+host+uri)
 	httpCache struct {
 		// key the key of store data
@@ -65,7 +70,7 @@ type (
 
 		mu        *sync.RWMutex
 		status    Status
-		chanList  []chan struct{}
+		chanList  []chan waitResult
 		response  *HTTPResponse
 		createdAt int64
 		expiredAt int64
@@ -118,13 +123,12 @@ func (hc *httpCache) Get() (status Status, response *HTTPResponse) {
 	if done != nil {
 		// TODO 后续再考虑是否需要添加timeout（proxy部分有超时，因此暂时可不添加)
 		verifPoint("get.registered", hc)
-		<-done
+		// 状态与响应由完成fetching的请求通过chan传递，此时状态只可能是hit for pass 或者 hit。
+		// 不能在此处再从hc中读取：当前goroutine恢复执行时，缓存有可能已过期并被其它请求重新设置为fetching
+		result := <-done
 		verifPoint("get.woken", hc)
-		// 完成后重新获取当前状态与响应
-		// 此时状态只可能是hit for pass 或者 hit
-		// 而此两种状态的数据缓存均不会立即失效，因此可以从hc中获取
-		status = hc.status
-		response = hc.response
+		status = result.status
+		response = result.response
 	}
 	return
 }
@@ -214,7 +218,7 @@ func (hc *httpCache) saveToStore() (err error) {
 	return hc.store.Set(hc.key, data, ttl)
 }
 
-func (hc *httpCache) get() (status Status, done chan struct{}, data *HTTPResponse) {
+func (hc *httpCache) get() (status Status, done chan waitResult, data *HTTPResponse) {
 	now := nowUnix()
 	// 如果首次创建并且设置store
 	if hc.status == StatusUnknown {
@@ -239,13 +243,13 @@ func (hc *httpCache) get() (status Status, done chan struct{}, data *HTTPRespons
 	// 如果是fetching，则相同的请求需要等待完成
 	// 通过chan返回完成
 	if hc.status == StatusFetching {
-		done = make(chan struct{})
+		done = make(chan waitResult)
 		hc.chanList = append(hc.chanList, done)
 	}
 
 	if hc.status == StatusUnknown {
 		hc.status = StatusFetching
-		hc.chanList = make([]chan struct{}, 0, 5)
+		hc.chanList = make([]chan waitResult, 0, 5)
 	}
 
 	status = hc.status
@@ -271,7 +275,7 @@ func (hc *httpCache) HitForPass(ttl int) {
 	list := hc.chanList
 	hc.chanList = nil
 	for _, ch := range list {
-		ch <- struct{}{}
+		ch <- waitResult{status: StatusHitForPass}
 	}
 	verifPoint("drained", hc)
 	err := hc.saveToStore()
@@ -299,7 +303,7 @@ func (hc *httpCache) Cacheable(resp *HTTPResponse, ttl int) {
 	list := hc.chanList
 	hc.chanList = nil
 	for _, ch := range list {
-		ch <- struct{}{}
+		ch <- waitResult{status: StatusHit, response: resp}
 	}
 	verifPoint("drained", hc)
 	err := hc.saveToStore()
